@@ -147,6 +147,10 @@ int main(int argc, char** argv) {
       else if (!strcmp(how, "it_table")) { keep1 = new(Table, ET, ET, MK(ET), MK(ET)); o = iter_last(keep1); wantT = ET; wantcls = "data"; }
       else if (!strcmp(how, "it_tree"))  { keep1 = new(Tree, ET, ET, MK(ET), MK(ET)); o = iter_last(keep1); wantT = ET; wantcls = "data"; }
       else if (!strcmp(how, "it_range")) { o = iter_init(vR); wantT = Int; wantcls = "stack"; }
+      /* a HEAP Range that has lived through collections: the cursor object it hands out is its own, still alive and an Int */
+      else if (!strcmp(how, "it_hrange")) { keep1 = new(Range, $I(3)); for (int q = 0; q < 4000; q++) { volatile var g = new(Float, $F(q)); g = NULL; } o = iter_init(keep1); wantT = Int; wantcls = "heap"; reg = 1; }
+      /* a copy of a plain object (its type has no Assign and no Copy instance of its own): a managed heap object like any other copy */
+      else if (!strcmp(how, "copyplain")) { o = copy($(Odd, "elevenchars")); wantT = Odd; reg = 1; }
       else if (!strcmp(how, "it_slice")) { o = iter_last(vS); wantT = Int; wantcls = "data"; }
       else if (!strcmp(how, "it_zip"))   { o = iter_init(vZ); wantT = Tuple; wantcls = "stack"; }
       else if (!strcmp(how, "it_map"))   { o = iter_init(vM); wantT = Int; wantcls = "data"; }
